@@ -1,20 +1,20 @@
-\* the core shape: the base is held by ANY holder kind, a second reference to the same object is put into a
-\* moved local (on this or on the other thread), the update goes through the moved reference
+\* binary updates (hash-union / append / ... of TWO aliases): two bases or two references to one object, either
+\* operand moved or not, the other one held by any holder kind
 SPECIFICATION Spec
 CONSTANTS
   FAMS = {"alias"}
   TYPES = {"hash", "hset", "ivec", "list", "str"}
-  DEPTH = 2
+  DEPTH = 3
   KINDS0 = {"G", "P", "L", "M", "B", "C", "EL", "EP", "EV", "EI", "EH", "EK", "ES", "EM", "S", "PR", "RA", "K", "WL", "WM", "WE"}
-  KINDS1 = {"M", "WM"}
-  KINDSR = {"L", "WL"}
+  KINDS1 = {"L", "M", "G", "C", "EL", "WM"}
+  KINDSR = {"L", "M"}
   KEEP1 = 1000
-  KEEP2 = 300
-  KEEPR = 1000
+  KEEP2 = 200
+  KEEPR = 100
   SEED = 1
   VIAS = {"d", "f"}
-  ACTS = {"share", "upd"}
-  MAXBASE = 1
+  ACTS = {"base", "share", "upd2"}
+  MAXBASE = 2
   MAXLEN = 6
   LOOPN = {}
   LOOPEVERY = {}
